@@ -116,9 +116,9 @@ def run_c11(ctx):
         elif role in ("reaper", "poller"):
             if path in respath and writers.get(path):
                 if kind_ == "stat":
-                    world.probes["reader-exists-before-writer-close"] += 1
+                    world.probes["reader-stat-on-result-while-its-writer-is-active"] += 1
                 elif kind_ == "open-r":
-                    world.probes["reader-opened-partial"] += 1
+                    world.probes["reader-opened-result-while-a-writer-is-active"] += 1
             if kind_ == "scandir" and path == resdir and any(
                     writers.get(p) for p in respath):
                 world.probes["poll-during-write"] += 1
